@@ -25,6 +25,8 @@ def main():
                 cases = [MM.gen_case(rng, cfg, "r%d" % k, rng.randint(8, 24), P.BIAS.get(prop)) for k in range(ncase)]
                 if cfg.plans:
                     cases += [MM.plan_veto_case(rng, cfg, "pv%d" % k) for k in range(ncase // 3)]
+                    cases += [MM.reactivation_case(rng, cfg, "ra%d" % k) for k in range(ncase // 4)]
+                cases += [MM.pingpong_case(rng, cfg, "pp%d" % k) for k in range(ncase // 3)]
                 rc, out = C.run_lines([exe], [l for c in cases for l in c], timeout=600)
                 outs = MM.split_cases(out)
                 for case, a in zip(cases, outs):
